@@ -42,6 +42,8 @@ pub struct Snapshot {
     pub timeout_msgs_total: usize,
     /// Cached proposal payloads.
     pub cached_payloads: usize,
+    /// (block number, payload hash) of every cached proposal payload, sorted.
+    pub cached: Vec<(validator::BlockNumber, validator::PayloadHash)>,
 }
 
 pub struct Replica {
@@ -190,6 +192,16 @@ impl Replica {
                 .values()
                 .map(|m| m.len())
                 .sum(),
+            cached: {
+                let mut v: Vec<_> = self
+                    .sm
+                    .block_proposal_cache
+                    .iter()
+                    .flat_map(|(n, m)| m.keys().map(|h| (*n, *h)))
+                    .collect();
+                v.sort();
+                v
+            },
         }
     }
 }
